@@ -780,6 +780,19 @@ func (u *Unit) execAppend(st *State, call *ssa.CallCommon, args []Value, pos tok
 	elem := s.Elem
 	r := u.newObject(st)
 	newLen := u.ctx.Named("applen", Arith("+", s.Len, t.Len))
+	// an element j >= len(s) of the result is element j - len(s) of the appended slice: goal-directed quantifier
+	// instantiation also tries that shifted index (see skolemizeGoal)
+	if u.ctx.inQuant == 0 && len(u.appendLens) < 3 && s.Len.S != "0" {
+		dup := false
+		for _, l := range u.appendLens {
+			if l.S == s.Len.S {
+				dup = true
+			}
+		}
+		if !dup {
+			u.appendLens = append(u.appendLens, s.Len)
+		}
+	}
 	// copyFam: the family holding a leaf reached from an element through the chain of by-value struct
 	// fields `path` (sub keys, outermost first) is copied element-wise into the new array.
 	copyFam := func(fam, sortv string, path []int) {
